@@ -81,7 +81,7 @@ for pid in props:
 na = [{"property_id": p, "reason": NOT_YET.get(p, "check not built yet in this round (planned: see DESIGN.md section 3)")}
       for p in props if p not in CHECKS]
 m = {"version": 1,
-     "setup_cmd": "/venv/bin/pip install --quiet --no-index --find-links /opt/veriftools/wheels --target /verif/.deps icontract deal >/dev/null 2>&1; /venv/bin/python -c \"import yaml\"",
+     "setup_cmd": "cd /verif && /venv/bin/python -c \"import yaml, sys; assert sys.version_info >= (3, 12)\" && PYTHONPATH=/repo:/verif PYTHONWARNINGS=ignore /venv/bin/python -m bvm.selftest",
      "hooks": {"guard": "BROMELIA_VERIF", "enable": "no source hooks: all instrumentation is applied from the harness (module-attribute substitution, wrappers, sys.monitoring); checks run /venv/bin/python with PYTHONPATH=/repo so the current working tree is what executes",
                "baseline_off_cmd": "cd /repo && /venv/bin/python -m pytest -q -p no:cacheprovider --timeout=900 --continue-on-collection-errors",
                "source_commits": [], "add_only": True},
